@@ -16,7 +16,10 @@ use zeromq::SocketEvent;
 pub struct C20;
 
 const TYPES: [&str; 5] = ["REP", "ROUTER", "PULL", "PUB", "XPUB"];
-const BEHAVIOURS: [&str; 3] = ["stop", "close", "garbage"];
+/// stop: keeps the connection open and silent; close: drops it (with the library's
+/// greeting unread that is a reset); fin: orderly end of stream, connection kept open
+/// (half-close); garbage: 48 junk bytes.
+const BEHAVIOURS: [&str; 4] = ["stop", "close", "garbage", "fin"];
 
 struct Out {
     viol: Vec<(String, String)>,
@@ -109,6 +112,7 @@ async fn scenario(ty: &str, transport: &str, bad: &[(usize, String)]) -> Out {
     let mut stalled: Vec<Raw> = Vec::new();
     let mut n_close = 0u64;
     let mut n_garbage = 0u64;
+    let mut n_fin = 0u64;
     for (k, (off, beh)) in bad.iter().enumerate() {
         let mut raw = match Raw::connect(&ep).await {
             Ok(r) => r,
@@ -125,6 +129,12 @@ async fn scenario(ty: &str, transport: &str, bad: &[(usize, String)]) -> Out {
             "close" => {
                 drop(raw);
                 n_close += 1;
+            }
+            "fin" => {
+                let _ = raw.shutdown_write().await;
+                n_close += 1;
+                n_fin += 1;
+                stalled.push(raw);
             }
             "garbage" => {
                 let _ = raw.write_all(&[0xAA; 48]).await;
@@ -172,7 +182,7 @@ async fn scenario(ty: &str, transport: &str, bad: &[(usize, String)]) -> Out {
         if rig::canary_ok().await {
             o.viol.push((
                 sig("failed-handshake-not-reported"),
-                format!("{n_close} clients closed mid-handshake ({bad:?}); the monitor reported {failed} accept failures"),
+                format!("{n_close} clients ended their stream mid-handshake ({n_fin} of them by an orderly half-close) ({bad:?}); the monitor reported {failed} accept failures"),
             ));
         } else {
             o.inconc.push("monitor wait expired while the canary was slow".into());
@@ -228,7 +238,7 @@ impl Prop for C20 {
                     let group: Vec<Value> = (0..count)
                         .map(|i| {
                             let off = (i * 7 + r.below(5)) % n;
-                            let beh = if mix_kinds { BEHAVIOURS[i % 3] } else { "stop" };
+                            let beh = if mix_kinds { BEHAVIOURS[i % 4] } else { "stop" };
                             json!([off, beh])
                         })
                         .collect();
@@ -289,6 +299,7 @@ impl Prop for C20 {
             ("behaviour/stop", 200),
             ("behaviour/close", 200),
             ("behaviour/garbage", 200),
+            ("behaviour/fin", 200),
             ("stall_inside_greeting", 300),
             ("stall_inside_ready", 100),
             ("good_handshakes_completed_while_a_staller_was_open", 100),
